@@ -229,6 +229,11 @@ where
     }
     let sc_hash = rng::fnv(serde_json::to_string(&(&sc.flavour, &sc.initial, &sc.tasks)).unwrap().as_bytes());
     stats.mark("scenarios", sc_hash);
+    if sc.initial.len() >= 4097 {
+        stats.inc("scenarios_with_a_list_longer_than_4096");
+    } else if sc.initial.len() >= 65 {
+        stats.inc("scenarios_with_a_hub_of_65_or_more");
+    }
     stats.mark("interleavings", rng::mix(sc_hash ^ rng::fnv(&fp)));
 
     let trace = outcome.trace.clone();
@@ -912,6 +917,46 @@ impl Engine for Conc {
                 tasks.push(w);
             }
         }
+        // giant-hub template: one node whose list has grown past 4096 entries (parallel edges to a
+        // few or to many neighbours) while two or three tasks add, look up and remove single edges
+        // of it. Whatever a library does differently once a list is that long - a scan outside the
+        // mutation lock with a re-check of "the new part" only, an index built lazily, a chunked
+        // walk - has to survive a removal and an addition landing inside its window.
+        let template6 = !template && !template2 && !template3 && rng.chance(1, if tier == Tier::Quick { 4000 } else { 2500 });
+        if template6 {
+            let spokes = *rng.pick(&[3usize, 8, 40, 400]);
+            let free = rng.range(1, 3);
+            let total = rng.range(4097, 4400);
+            prios = (0..(1 + spokes + free)).map(|_| rng.below(3) as u32).collect();
+            m = Model::new(directed, 1 + spokes + free);
+            initial.clear();
+            let out_only = rng.coin();
+            for i in 0..total {
+                next_edge += 1;
+                let x = 1 + if i < spokes { i } else { rng.below(spokes) };
+                let (a, b) = if out_only || rng.chance(9, 10) { (0, x) } else { (x, 0) };
+                initial.push((a, b, next_edge));
+                m.edges.push(crate::model::MEdge { val: next_edge, u: a, v: b });
+            }
+            for _ in 0..nt {
+                let mut w = Vec::new();
+                for _ in 0..rng.range(1, 3) {
+                    let x = rng.range(1, spokes);
+                    let f = spokes + 1 + rng.below(free);
+                    next_edge += 1;
+                    w.push(match rng.below(10) {
+                        0..=3 => Op::TryConnect { u: 0, v: f, e: next_edge, h: Prov::Own },
+                        4 => Op::TryConnect { u: f, v: 0, e: next_edge, h: Prov::Own },
+                        5 | 6 => Op::Disconnect { u: 0, k: x, h: Prov::Own },
+                        7 => Op::Disconnect { u: 0, k: f, h: Prov::Own },
+                        8 => Op::Connect { u: 0, v: f, e: next_edge, h: Prov::Own },
+                        _ => Op::IsConnected { u: 0, k: f },
+                    });
+                }
+                tasks.push(w);
+            }
+        }
+        let template3 = template3 || template6;
         // readers-only template: every task only reads - container views (mostly scc), searches,
         // orderings, snapshots - on one shared container. Whatever a read-only call keeps in the
         // nodes or in the container while it runs (stamps, scratch sets, caches) is then shared
